@@ -10,6 +10,7 @@ import (
 
 	"github.com/buildbuildio/pebbles/planner"
 	"github.com/buildbuildio/pebbles/requests"
+	"github.com/buildbuildio/pebbles/simhook"
 	"github.com/gobwas/ws"
 	"github.com/gobwas/ws/wsutil"
 	"github.com/vektah/gqlparser/v2"
@@ -32,6 +33,8 @@ func (sd subscriptionDict) CleanAll() {
 }
 
 func sendHeartbeat(ctx context.Context, conn net.Conn) error {
+	simhook.Enter("sub.hb")
+	defer simhook.Exit()
 	timeTicker := time.NewTicker(time.Second * 4)
 	defer timeTicker.Stop()
 
